@@ -275,6 +275,14 @@ def _dom5(chk):
                f.where(n.ast), detail="facts %s" % sorted(facts.items()), construct=f.ident, text="break guard")
     chk.ob("DOM-5", "boolean: dispatch stops at the first False", good_brk >= 1, f.where(), construct=f.ident,
            text="boolean break present")
+    # ... and *whenever* that happens: nothing else takes part in the decision (sufficiency; the "only for" above is necessity)
+    from sa.helpers import exact_selection
+    for n in brk:
+        exact_selection(chk, "DOM-5", "a boolean event is aborted whenever a handler returned False (no further condition)", f, cfg, n, head,
+                        {("ev_type == 'boolean'", True), ("%s is False" % rv, True)}, text="break exactly on boolean False")
+    for n, c in ups:
+        exact_selection(chk, "DOM-5", "a relay handler's dict result is merged whenever it is a dict (no further condition)", f, cfg, n, head,
+                        {("ev_type == 'relay'", True), ("isinstance(%s, dict)" % rv, True)}, text="relay update exactly on dict result")
     evr = [n for n in cfg.nodes_where(lambda n: n.kind == "stmt" and isinstance(n.ast, ast.Assign) and
                                       src(n.ast.targets[0]) == "kwargs['ev_result']")]
     for n in evr:
@@ -392,15 +400,22 @@ def _keyed_waits(chk):
                        ok, f.where(), construct=f.ident, text="keyed clearing callback " + cbn)
     chk.ob("PAIR-2", "keyed clearing callbacks examined", n >= 1, "mpf:1", detail=str(n), nontrivial=False)
     # stop loops: who is waited for
-    for rel, qual, want in (("mpf/modes/game/code/game.py", "Game._stop_game_modes", {("mode.is_game_mode", True), ("mode.active", True)}),
-                            ("mpf/core/mode_controller.py", "ModeController._ball_ending", {("mode.is_game_mode", True), ("mode.auto_stop_on_ball_end", True)})):
+    for rel, qual, want, coll in (("mpf/modes/game/code/game.py", "Game._stop_game_modes", {("mode.is_game_mode", True), ("mode.active", True)},
+                                   "self.machine.modes.values()"),
+                                  ("mpf/core/mode_controller.py", "ModeController._ball_ending", {("mode.is_game_mode", True), ("mode.auto_stop_on_ball_end", True)},
+                                   "self.active_modes")):
         f = repo.func(rel, qual)
         cfg = f.cfg()
         st = [(nn, c) for nn, c in cfg.calls_named("stop") if src(c.func.value) == "mode" and kwarg(c, "callback") is not None]
         chk.need(len(st) == 1, "PAIR-2", "%s stops the modes with a completion callback" % qual, f)
-        from sa.cfg import canon_set
-        g = {(k, v) for k, v in canon_set(cfg.guards_at(st[0][0].id)) if k.startswith("mode.") or "mode." in k}
-        g = {(k[4:], not v) if k.startswith("not ") else (k, v) for k, v in g}
+        from sa.helpers import inloop_guards, positive
+        lh = [h for h in cfg.nodes if h.kind == "loop" and any(y is st[0][1] for y in ast.walk(h.ast))]
+        chk.need(lh, "PAIR-2", "%s stops the modes in a loop" % qual, f)
+        g = positive(inloop_guards(cfg, st[0][0].id, lh[-1].id))
+        lp = lh[-1].ast
+        ok = src(lp.iter) == coll and not any(isinstance(y, (ast.Break, ast.Return)) for y in ast.walk(lp))
+        chk.ob("PAIR-2", "%s looks at all of %s and never leaves the loop early" % (qual, coll), ok, f.where(lp), detail=src(lp.iter), construct=f.ident,
+               text="stop loop range")
         chk.ob("PAIR-2", "%s waits for every mode that matches %s - no further condition excludes a mode (one already stopping still has to finish)" %
                (qual, sorted(k for k, _ in want)), g == want, f.where(st[0][1]), detail="selection %s" % sorted(g), construct=f.ident, text="stop loop selection")
 
